@@ -343,7 +343,7 @@ def bStepModel (c : BCase) : String :=
 def bStepSpec (c : BCase) : String :=
   if wellTyped (dbSpecSigma c.db.defs) c.fo c.root c.f then
     "wt " ++ idsText (specQuery c.db c.fo c.root c.f) ++ " n=" ++ toString (storeIds c.db c.root).length ++
-      (if subQueriesPlain c.db.defs c.root c.f then "" else " H:subtail")
+      (if namesOK c.db.defs c.root c.f then "" else " H:subtail")
   else "ill n=" ++ toString (storeIds c.db c.root).length
 
 def bStep (spec : Bool) (ts : List String) : String :=
